@@ -10,6 +10,15 @@ _VERIF = os.environ.get("NSL_VERIF") == "1"
 _VERIF_OBSERVER = None
 
 
+def _Divide(a, b, resultType: LinearIR.Type):
+    """Divide two scalars. Integer division truncates toward zero (as in C),
+    everything else is a floating point division."""
+    if isinstance(resultType, LinearIR.IntegerType):
+        quotient = abs(a) // abs(b)
+        return quotient if (a < 0) == (b < 0) else -quotient
+    return a / b
+
+
 class ExecutionContext:
     def __init__(self, functions, globalScope: Dict[str, Any]):
         self.__globalScope = globalScope
@@ -198,7 +207,9 @@ class ExecutionContext:
                         case LinearIR.OpCode.SUB:
                             localScope[ref] = op1 - op2
                         case LinearIR.OpCode.DIV:
-                            localScope[ref] = op1 / op2
+                            localScope[ref] = _Divide(
+                                op1, op2, instruction.Type
+                            )
                         case LinearIR.OpCode.MUL:
                             localScope[ref] = op1 * op2
                         case LinearIR.OpCode.MOD:
@@ -254,7 +265,10 @@ class ExecutionContext:
                         case LinearIR.OpCode.VECTOR_MUL_SCALAR:
                             localScope[ref] = [v * op2 for v in op1]
                         case LinearIR.OpCode.VECTOR_DIV_SCALAR:
-                            localScope[ref] = [v / op2 for v in op1]
+                            localScope[ref] = [
+                                _Divide(v, op2, instruction.Type.ElementType)
+                                for v in op1
+                            ]
                         case LinearIR.OpCode.MATRIX_MUL_MATRIX:
                             localScope[ref] = self.__MatrixMatrixMultiply(
                                 instruction.Type.Shape, op1, op2
